@@ -568,6 +568,8 @@ fn main() {
     let mut distinct_shapes = std::collections::BTreeSet::new();
     let mut accepted_err_examples: Vec<String> = vec![];
     let mut k5_hits = 0usize;
+    let mut k6_hits = 0usize;
+    let mut k6_aborts = 0usize;
     for m in &mutants {
         let out = res.get(&m.id).cloned().unwrap_or_else(|| "not-run".into());
         let (acc, first) = vmap.get(&m.id).cloned().unwrap_or((false, String::new()));
@@ -577,8 +579,14 @@ fn main() {
         let input = || format!("{{\"mode\":\"mutant\",\"origin\":{},\"operator\":{},\"header_name\":{},\"text\":{},\"pre\":[{}],\"clang\":[{}]}}", json_str(&m.origin), json_str(m.op),
             json_str(&m.path.file_name().unwrap().to_string_lossy()), json_str(&std::fs::read_to_string(&m.path).unwrap_or_default()),
             m.pre.iter().map(|s| json_str(s)).collect::<Vec<_>>().join(","), m.clang.iter().map(|s| json_str(s)).collect::<Vec<_>>().join(","));
+        let text_has_complex = || std::fs::read_to_string(&m.path).map_or(false, |t| t.contains("_Complex"));
         if out.starts_with("panic") && out.contains("libclang error; possible causes include") {
             k5_hits += 1;
+        } else if (out.starts_with("panic") && out.contains("Non floating-type complex?")) || (out.starts_with("abort") && text_has_complex()) {
+            // known finding integer_complex_type (a panic inside a libclang visitor callback cannot
+            // unwind: the process aborts)
+            k6_hits += 1;
+            if out.starts_with("abort") { k6_aborts += 1; }
         } else if out.starts_with("panic") || out.starts_with("abort") || out == "timeout" || out == "not-run" {
             let key = if out.starts_with("panic") { norm_panic(&out) } else { out.split(' ').next().unwrap_or("").to_owned() };
             if !findings.iter().any(|f| f.key == key) {
@@ -779,6 +787,7 @@ fn main() {
     evals += optsets.len();
     let mut opt_table: BTreeMap<String, usize> = BTreeMap::new();
     let mut k4_hits = 0usize;
+    let mut k7_hits = 0usize;
     let mut k4_example = String::new();
     let mut flags_exercised = std::collections::BTreeSet::new();
     for (i, v, e) in ores.into_inner().unwrap() {
@@ -786,11 +795,17 @@ fn main() {
         if v != "clap-reject" { for a in &optsets[i].1 { if a.starts_with("--") && a.len() > 2 { flags_exercised.insert(a.clone()); } } }
         let args_i = &optsets[i].1;
         let k4 = v == "panic" && e.contains("struct_layout.rs") && e.contains("subtract with overflow")
-            && args_i.iter().any(|a| a == "--explicit-padding") && args_i.iter().any(|a| a == "--disable-untagged-union")
+            && args_i.iter().any(|a| a == "--explicit-padding")
             && std::fs::read_to_string(&args_i[0]).map_or(false, |t| t.contains("union"));
+        let k7 = v == "panic" && e.contains("fields.is_empty()") && args_i.iter().any(|a| a == "--opaque-type");
+        let k6o = v == "panic" && e.contains("Non floating-type complex?");
         if k4 {
             k4_hits += 1;
             if k4_example.is_empty() { k4_example = format!("{:?}", &args_i[1..]); }
+        } else if k7 {
+            k7_hits += 1;
+        } else if k6o {
+            k6_hits += 1;
         } else if v == "panic" || v == "timeout" || v.starts_with("signal") {
             let key = if v == "panic" { format!("cli-panic: {}", e.split("panicked at").nth(1).unwrap_or(&e).chars().map(|c| if c.is_ascii_digit() { '#' } else { c }).take(100).collect::<String>()) } else { format!("cli-options-{v}") };
             if !findings.iter().any(|f| f.key == key) {
@@ -822,6 +837,15 @@ fn main() {
     if k4_probe == "panic" && !k4_probe_known {
         findings.push(Finding { class: "option-set".into(), key: "explicit-padding-probe-other-panic".into(), detail: k4_e.clone(), input: "{\"mode\":\"options\",\"header_text\":\"union U { int a; int b : 9; };\",\"args\":[\"--explicit-padding\",\"--disable-untagged-union\"]}".into() });
     }
+    let pc = work.path("complex_probe.h");
+    std::fs::write(&pc, "_Complex int x;\n").unwrap();
+    let (k6_probe, k6_e) = cli_timeout(&[pc.to_string_lossy().into_owned(), "--formatter".into(), "none".into(), "--no-include-path-detection".into()], 30, Some(&work.0));
+    let k6_probe_known = (k6_probe == "panic" || k6_probe.starts_with("signal")) && k6_e.contains("Non floating-type complex?");
+    let po = work.path("opaque_probe.hpp");
+    std::fs::write(&po, "struct S5 {\n};\nclass C7 : public S5 {\n};\nnamespace ns25 {\ntemplate <typename T, typename U> struct Tp29 { T a; U b[4]; Tp29<U, T> *o; };\nstruct __attribute__((packed)) S30 {\n};\n}\n").unwrap();
+    let (k7_probe, k7_e) = cli_timeout(&[po.to_string_lossy().into_owned(), "--formatter".into(), "none".into(), "--no-include-path-detection".into(), "--opaque-type".into(), ".*".into(), "--no-recursive-allowlist".into(), "--".into(), "-x".into(), "c++".into(), "-std=c++14".into()], 30, Some(&work.0));
+    let k7_probe_known = k7_probe == "panic" && k7_e.contains("fields.is_empty()");
+    evals += 2;
     samples.push(format!("garbage values for token-spliced options: {:?}", k3_table));
     samples.push(format!("option sets: {} sets over a flag space of {} flags parsed from --help ({} exercised in accepted command lines); verdicts {:?}", optsets.len(), flagspace.len(), flags_exercised.len(), opt_table));
     phase_t.push(("options".into(), t0.elapsed().as_secs_f64()));
@@ -847,6 +871,8 @@ fn main() {
     kv(&mut j, "nesting_table", format!("{{{}}}", nest_table.iter().map(|(k, v)| format!("{}:{}", json_str(k), v)).collect::<Vec<_>>().join(",")));
     kv(&mut j, "nested_record_probe_depth30_20s", json_str(&nested_record_probe));
     kv(&mut j, "known_libclang_null_tu", format!("{{\"probe\":{},\"probe_in_region\":{},\"mutant_hits\":{}}}", json_str(&k5_probe), k5_probe_known, k5_hits));
+    kv(&mut j, "known_integer_complex", format!("{{\"probe\":{},\"probe_in_region\":{},\"hits\":{},\"of_which_process_aborts\":{}}}", json_str(&k6_probe), k6_probe_known, k6_hits, k6_aborts));
+    kv(&mut j, "known_opaque_debug_assert", format!("{{\"probe\":{},\"probe_in_region\":{},\"random_option_set_hits\":{}}}", json_str(&k7_probe), k7_probe_known, k7_hits));
     kv(&mut j, "known_token_option_panics", format!("[{}]", k3_panics.iter().map(|s| json_str(s)).collect::<Vec<_>>().join(",")));
     kv(&mut j, "known_explicit_padding_union", format!("{{\"probe\":{},\"probe_in_region\":{},\"random_option_set_hits\":{},\"example\":{}}}", json_str(&k4_probe), k4_probe_known, k4_hits, json_str(&k4_example)));
     kv(&mut j, "option_sets", optsets.len().to_string());
